@@ -67,8 +67,11 @@ def main():
     wt = "/tmp/confirm_wt_" + os.path.basename(d).replace("/", "_")
     sh(f"git -C /repo worktree remove --force {wt}")
     shutil.rmtree(wt, ignore_errors=True)
-    r = sh(f"git -C /repo worktree add -q --detach {wt} HEAD")
-    out = {"dir": d}
+    # RCE_CONFIRM_REV: confirm against an earlier commit of /repo (a change whose trigger was a
+    # genuine defect that has been repaired since can only be confirmed on the tree before the repair)
+    rev = os.environ.get("RCE_CONFIRM_REV", "HEAD")
+    r = sh(f"git -C /repo worktree add -q --detach {wt} {rev}")
+    out = {"dir": d, "rev": rev}
     try:
         ok0, msg0 = run_demo(wt, d, False)
         out["demo_passes_without_change"] = ok0
